@@ -421,6 +421,13 @@ def run(prog, rep, tier):
     check_env_pairing(prog, rep)
     if check_block_dtype(prog, rep) < 1:
         raise AnalysisError('ED-block-dtype: the block insertion of full_diag_effH was not found')
+    rep.rule('MPO-bond-coherence', 'IdL / IdR / bond dimension used on one per-bond array '
+             'belong to the same MPO bond (index polynomials)')
+    rep.rule('HEFF-adjoint', 'adjoint() conjugates every tensor that matvec / to_matrix contract')
+    if check_heff_adjoint(prog, rep) < 2:
+        raise AnalysisError('HEFF-adjoint: adjoint() of OneSiteH / TwoSiteH not found')
+    if check_bond_coherence(prog, rep) < 2:
+        raise AnalysisError('MPO-bond-coherence: the per-bond arrays of _mix_LR were not found')
     rep.floor('HOOKS-keys', 8)
     rep.floor('HOOKS-schedule', 5)
     rep.floor('HCFLAG-heff', 8)
@@ -430,3 +437,156 @@ def run(prog, rep, tier):
         explanation='Protocol facts of the sweep framework decided per engine class: hook keys '
         '(%d engines), schedule lengths (%d schedules), explicit_plus_hc handling at %d '
         'effective-Hamiltonian construction sites, environment index pairing.' % (n1, n2, n3))
+
+
+# ------------------------------------------------------------------ MPO-bond-coherence
+def _mpo_bonds(f):
+    """local -> (receiver, bond polynomial, how) for values read from an MPO accessor:
+    get_IdL(i): bond left of site i = bond i; get_IdR(i): bond right of site i = bond i+1;
+    get_W(i).get_leg('wR'): bond i+1; get_W(i).get_leg('wL'): bond i"""
+    out = {}
+
+    def bond_of(v):
+        if not (isinstance(v, ast.Call) and isinstance(v.func, ast.Attribute)):
+            # `.ind_len` of a leg
+            if isinstance(v, ast.Attribute) and v.attr in ('ind_len', 'block_number'):
+                return bond_of(v.value)
+            return None
+        try:
+            if v.func.attr in ('get_IdL', 'get_IdR') and len(v.args) == 1:
+                p = eval_poly(v.args[0], {})
+                return (unparse(v.func.value), p if v.func.attr == 'get_IdL' else
+                        p + Poly.const(1), unparse(v))
+            if v.func.attr == 'get_leg' and len(v.args) == 1 and isinstance(
+                    v.args[0], ast.Constant) and v.args[0].value in ('wL', 'wR'):
+                w = v.func.value
+                if isinstance(w, ast.Call) and isinstance(w.func, ast.Attribute) and \
+                        w.func.attr == 'get_W' and len(w.args) == 1:
+                    p = eval_poly(w.args[0], {})
+                    return (unparse(w.func.value), p + Poly.const(
+                        1 if v.args[0].value == 'wR' else 0), unparse(v))
+        except NotPoly:
+            return None
+        return None
+    for st in stmts_of(f):
+        if not (isinstance(st, ast.Assign) and len(st.targets) == 1):
+            continue
+        t, v = st.targets[0], st.value
+        pairs = list(zip(t.elts, v.elts)) if isinstance(t, ast.Tuple) and isinstance(
+            v, ast.Tuple) and len(t.elts) == len(v.elts) else [(t, v)]
+        for a, b in pairs:
+            if isinstance(a, ast.Name):
+                r = bond_of(b)
+                if r is not None:
+                    out[a.id] = r
+    return out
+
+
+def check_bond_coherence(prog, rep):
+    """MPO-bond-coherence: the identity indices IdL / IdR and the bond dimension used together in
+    one function (to size and to index the same per-bond array, as the mixers do) belong to the
+    SAME bond of the MPO: get_IdL(i) is the bond left of site i, get_IdR(i) and the wR leg of W_i
+    the bond right of it."""
+    n = 0
+    for rel in FILES + ['tenpy/networks/mpo.py']:
+        m = prog.module(rel)
+        for q, f in m.functions.items():
+            bonds = _mpo_bonds(f)
+            if len(bonds) < 2:
+                continue
+            # arrays sized by a bond dimension
+            sized = {}
+            for st in stmts_of(f):
+                if isinstance(st, ast.Assign) and len(st.targets) == 1 and isinstance(
+                        st.targets[0], ast.Name) and isinstance(st.value, ast.Call) and \
+                        dotted(st.value.func) in ('np.full', 'np.zeros', 'np.ones', 'np.empty'):
+                    for nm in names_in(st.value.args[0]) if st.value.args else []:
+                        if nm in bonds:
+                            sized[st.targets[0].id] = bonds[nm]
+            groups = {}
+            for s in body_nodes(f):
+                if isinstance(s, ast.Subscript) and isinstance(s.value, ast.Name) and isinstance(
+                        s.slice, ast.Name) and s.slice.id in bonds:
+                    groups.setdefault(s.value.id, {})[s.slice.id] = bonds[s.slice.id]
+            for arr, idx in groups.items():
+                items = dict(idx)
+                if arr in sized:
+                    items['len(%s)' % arr] = sized[arr]
+                if len(items) < 2:
+                    continue
+                n += 1
+                ref_name, (ref_recv, ref_bond, ref_how) = sorted(items.items())[-1] \
+                    if arr not in sized else ('len(%s)' % arr, sized[arr])
+                rep.instance('MPO-bond-coherence', {
+                    'function': q, 'array': arr,
+                    'bonds': {k: '%s: bond %r' % (v[2], v[1]) for k, v in items.items()}})
+                for name, (recv, bond, how) in sorted(items.items()):
+                    if recv == ref_recv and not (bond - ref_bond).is_zero():
+                        rep.violation('MPO-bond-coherence', m, q, 'bond:%s:%s' % (arr, name),
+                                      '`%s` is indexed with `%s` = `%s` (bond %r of the MPO) but '
+                                      '%s refers to bond %r (`%s`): on an MPO whose identity '
+                                      'index differs from bond to bond (sorted legs, boundary '
+                                      'bonds) the wrong channel is kept / suppressed' %
+                                      (arr, name, how, bond, ref_name, ref_bond, ref_how),
+                                      f.lineno)
+    return n
+
+
+# ------------------------------------------------------------------ HEFF-adjoint
+def _tensor_attrs_read(f):
+    """self attributes that appear as an operand of a tensordot (or have a tensor method called on
+    them) in f"""
+    out = set()
+    for c in body_nodes(f):
+        if isinstance(c, ast.Call) and (dotted(c.func) or '').endswith('tensordot'):
+            for a in c.args[:2]:
+                if is_self_attr(a):
+                    out.add(a.attr)
+    return out
+
+
+def check_heff_adjoint(prog, rep):
+    """HEFF-adjoint: adjoint() of an effective Hamiltonian works on a shallow copy; every tensor
+    that matvec / to_matrix contract (in any configuration: plain LP W RP or the combined
+    LHeff / RHeff) has to be replaced by its conjugate on the copy, otherwise the "adjoint" acts
+    like the original and H + H^dagger becomes 2 H."""
+    ct = prog.classtable()
+    base = ct.get('EffectiveH')
+    n = 0
+    for ci in ct.cone(base):
+        adj = ci.methods.get('adjoint')
+        if adj is None:
+            continue
+        src = unparse(adj)
+        cp = [st for st in stmts_of(adj) if isinstance(st, ast.Assign) and isinstance(
+            st.value, ast.Call) and dotted(st.value.func) in ('copy.copy', 'copy')]
+        if not cp:
+            continue
+        cname = unparse(cp[0].targets[0])
+        assigned = {}
+        for st in stmts_of(adj):
+            if isinstance(st, ast.Assign):
+                for t in st.targets:
+                    if isinstance(t, ast.Attribute) and unparse(t.value) == cname:
+                        assigned[t.attr] = st
+        need = set()
+        for name in ('matvec', 'to_matrix'):
+            _, g = ct.resolve_method(ci, name)
+            if g is not None:
+                need |= _tensor_attrs_read(g)
+        n += 1
+        rep.instance('HEFF-adjoint', {'class': ci.name, 'contracted': sorted(need),
+                                      'conjugated_on_copy': sorted(assigned)})
+        for a in sorted(need - set(assigned)):
+            rep.violation('HEFF-adjoint', ci.module, ci.name + '.adjoint', 'not-conjugated:' + a,
+                          '%s.matvec / to_matrix contract `self.%s`, but adjoint() leaves it on '
+                          'the shallow copy as it is: in the configuration that uses it the '
+                          'adjoint acts like the operator itself' % (ci.name, a), adj.lineno)
+        for a, st in sorted(assigned.items()):
+            if a in need and not any(isinstance(c, ast.Call) and isinstance(c.func, ast.Attribute)
+                                     and c.func.attr in ('conj', 'iconj', 'adjoint')
+                                     for c in ast.walk(st.value)):
+                rep.violation('HEFF-adjoint', ci.module, ci.name + '.adjoint',
+                              'not-conjugate:' + a,
+                              '`%s` does not conjugate the tensor' % key_text(st)[:70], st.lineno)
+    return n
